@@ -46,6 +46,24 @@ CHECKS = {
         assumptions=HIST_ASSUME,
         jobs=[dict(test="TestC02", quick=T(8, 10, 40), thorough=T(16, 150, 70, 3000))],
     ),
+    "C04": dict(
+        level="exploration",
+        level_text="Stateful property testing with a ledger-wide invariant recomputed by the independent scanner after every "
+                   "step: every send has at most one receiving block over ALL account chains and it sits on the addressee's "
+                   "chain; each contract's received-from sequence is a prefix of the confirmation order recomputed from "
+                   "momentum contents alone; the node's receive index agrees. Histories contain competing receive attempts "
+                   "(same account twice, other accounts, across a momentum), replacement of pooled blocks by competing blocks, "
+                   "follower sync in batches with restarts, and (TestC04Reorg) reorganisations that un-confirm receives.",
+        level_note="Trusts the scanner. Receiver rule enforced from genesis (see assumptions); the shipped gate height itself is "
+                   "exercised in C03.",
+        technique="stateful property-based testing (rapid) with an independent whole-ledger scanner as oracle",
+        rule="history = C01 grammar + {double receive, competing receiver, fork of a pooled block with 1-3x plasma}; non-trivial = "
+             ">=1 rejected competing receive AND a contract with >=3 confirmed sends from >=2 accounts (TestC04), or a "
+             "reorganisation of depth >=2 (TestC04Reorg)",
+        assumptions=HIST_ASSUME,
+        jobs=[dict(test="TestC04", quick=T(6, 20, 45), thorough=T(12, 200, 80, 3000)),
+              dict(test="TestC04Reorg", quick=T(2, 12), thorough=T(4, 150, 0, 3000))],
+    ),
     "C06": dict(
         level="exploration",
         level_text="Differential property testing of reorganisations: common prefix, branch X on producer A, strictly longer "
@@ -84,5 +102,26 @@ CHECKS = {
             dict(test="TestC07Mem", quick=T(2, 400, 40), thorough=T(4, 8000, 80, 3000)),
             dict(test="TestC07Conc", race=True, quick=T(2, 12), thorough=T(8, 150, 0, 3000)),
         ],
+    ),
+    "C16": dict(
+        level="fault_enumeration",
+        level_text="For generated local chains and delivered batches (pure extension, overlap with known momentums, duplicates, "
+                   "gap, forks at depth 1..34 that are shorter / equal / longer) every position of the batch (all positions up to "
+                   "8, else 8 sampled incl. first and last) is given every certain fault kind (bad signature, signature by a "
+                   "non-elected pillar, wrong changes hash re-signed by the elected pillar, wrong hash, missing / extra / "
+                   "mutated / re-signed account block, wrong previous, non-empty data, wrong chain id), each delivered to a "
+                   "fresh copy of the follower's database; outcome compared with the decision the statement prescribes "
+                   "(error, failing index, state = verified prefix / unchanged, resulting chain replays on a fresh node).",
+        level_note="Enumeration is exhaustive per batch over positions x fault kinds (quick tier: all positions, 4 drawn kinds "
+                   "when the product exceeds 40); batches and chains themselves are sampled. The state reference for a "
+                   "verified prefix is the producer's historical view at that height (C07 machinery). Known finding "
+                   "C16/rollback-before-verify is tolerated exactly (node on the verified prefix of the delivered fork).",
+        technique="fault injection enumerated over positions x kinds on generated batches (rapid), reference decision from the statement",
+        rule="case = world + local chain + batch variants; evaluation unit = one faulted delivery; distinct non-trivial = distinct "
+             "(variant, fault kind, position relative to first unknown element, batch length, fork depth) tuples plus distinct cases",
+        exhaustive_note="per delivered batch: positions x fault kinds as described; not exhaustive over batches",
+        assumptions=HIST_ASSUME,
+        eval_counter="fault_deliveries",
+        jobs=[dict(test="TestC16", quick=T(8, 8), thorough=T(16, 40, 0, 3000))],
     ),
 }
